@@ -850,3 +850,24 @@ def fam_store_conc(tier, base):
 
 
 ALSO["C13"] = ["store_conc"]
+
+
+# =========================================================================== Engine cache (beyond the listed properties; diagnostic)
+@family("engine_cache")
+def fam_engine_cache(tier, base):
+    q = tier == "quick"
+    r = verif.model_check("MC_EngineCache", "MC_EngineCache.cfg", timeout=3000, workers=1)
+    inputs, trace = base + ".in.ndjson", base + ".trace.ndjson"
+    allin = list(dict.fromkeys(r.tagged("INPUT")))
+    every = max(1, len(allin) // (40 if q else 600))
+    with open(inputs, "w") as f:
+        f.write("\n".join(x for i, x in enumerate(allin) if (i + verif.seed()) % every == 0 and '"wait"' in x) + "\n")
+    b = verif.build_driver("storecmp")
+    verif.run_driver_sharded(b, "TestEngineCache", inputs, trace, shards=10, timeout=7000)
+    os.remove(inputs)
+    viols, tr = verif.validate_trace("Trace_EngineCache", "Trace_EngineCache.cfg", trace)
+    lines = verif.read_lines(trace)
+    return dict(trace=trace, viols=viols, states=r.distinct, transitions=r.generated, configs=["MC_EngineCache.cfg", "Trace_EngineCache.cfg"], window=0,
+                traces={"*": len(lines)}, samples={"*": [json.loads(x) for x in lines[:2]]}, nontrivial={},
+                notes="engine cache (engine/factory): %d schedules of up / down / heartbeat / lapse / get / wait with a real docker client against a switchable fake daemon; deviations (diagnostic): %s" % (
+                    len(lines), sorted({v["sig"] for v in viols}) or "none"))
